@@ -5,6 +5,7 @@ package c06
 
 import (
 	"fmt"
+	"sort"
 	"strings"
 	"testing"
 	"time"
@@ -131,15 +132,25 @@ func runOne(t *testing.T, c *mc.Chooser) (out mc.Outcome) {
 				{Name: "connect h2 (safari)", Do: func() {
 					c1 = mk("C", nil, bubble.Hello{Name: "safari", ID: &utls.HelloSafari_16_0, ALPN: []string{"h2", "http/1.1"}, SNI: "localhost"})
 				}},
-				{Name: "preface S{2:0}+PRIORITY+request /c1", Do: func() {
+				{Name: "preface S{2:0}+12 PRIORITY+request /c1", Do: func() {
 					if !ok(c1.cl) {
 						return
 					}
 					c1.cl.StartH2(h2wire.Setting{ID: 2, Val: 0})
 					c1.h2.OnSettings([]h2fpref.Setting{{ID: 2, Val: 0}})
-					c1.cl.Write(h2wire.Priority(3, h2wire.Prio{Dep: 0, Excl: true, Weight: 200}))
-					c1.h2.OnPriority(h2fpref.Priority{Stream: 3, Dep: 0, Excl: true, Weight: 200})
+					// a PRIORITY storm: far more entries than the other connections record (whatever room a connection has
+					// for them, this one outgrows it)
+					for i := 0; i < 12; i++ {
+						pr := h2wire.Prio{Dep: uint32(2 * (i % 3)), Excl: i%2 == 0, Weight: uint8(200 - i)}
+						c1.cl.Write(h2wire.Priority(uint32(3+2*i), pr))
+						c1.h2.OnPriority(h2fpref.Priority{Stream: uint32(3 + 2*i), Dep: pr.Dep, Excl: pr.Excl, Weight: pr.Weight})
+					}
 					w.h2req(c1, 1, "/c1", nil, []string{":method", ":scheme", ":path", ":authority"})
+				}},
+				{Name: "request /c1b (stream 27)", Do: func() {
+					if ok(c1.cl) {
+						w.h2req(c1, 27, "/c1b", nil, []string{":method", ":scheme", ":path", ":authority"})
+					}
 				}},
 				{Name: "disconnect", Do: func() { c1.cl.Close() }},
 				{Name: "reconnect h1 (chrome102 without ec_point_formats)", Do: func() {
@@ -211,8 +222,11 @@ func runOne(t *testing.T, c *mc.Chooser) (out mc.Outcome) {
 			obs = append(obs, r.Path)
 			triples[first(j3)+"|"+first(j4)+"|"+first(h2)] = true
 		}
-		out.Obs = strings.Join(obs, ",") + fmt.Sprintf(" triples=%d", len(triples)) // order in which the backend saw the requests
-		if len(obs) == 6 && len(triples) < 4 {
+		// (which requests reached the backend, not in which order: two requests of one connection that were waiting behind a
+		// parked gate are handled by two handler goroutines at once)
+		sort.Strings(obs)
+		out.Obs = strings.Join(obs, ",") + fmt.Sprintf(" triples=%d", len(triples))
+		if len(obs) == 7 && len(triples) < 4 {
 			viol("vacuous", "only %d distinct fingerprint triples among 4 connections with different hellos", len(triples))
 		}
 		st.Shutdown()
